@@ -252,13 +252,13 @@ def markdown_leaf():
                      st.lists(block, max_size=5), st.booleans(), st.sampled_from([None, None, "left", "center", "right", "full"]), st.sampled_from(["monokai", "default"]))
 
 
-def pretty_leaf():
+def pretty_leaf(allow_ignore=True):
     lf = st.one_of(st.integers(-5, 10**9), st.sampled_from(["", "a", "漢字" * 4, "x" * 40, "q'\"\n"]), st.none(), st.booleans(), st.floats(allow_nan=False, allow_infinity=False, width=32))
     val = st.recursive(lf, lambda k: st.one_of(st.lists(k, max_size=4), st.lists(k, max_size=3).map(tuple), st.dictionaries(st.sampled_from(["k", "key2", 3]), k, max_size=3)), max_leaves=12)
     return st.builds(lambda v, ind, ig, ml, ms, ea, mg, il, ov, nw: {"k": "pretty", "v": repr(v), "indent_size": ind, "indent_guides": ig, "max_length": ml, "max_string": ms, "expand_all": ea, "margin": mg,
                                                              "insert_line": il, "overflow": ov, "no_wrap": nw},
                      val, st.integers(1, 8), st.booleans(), st.one_of(st.none(), st.integers(0, 5)), st.one_of(st.none(), st.integers(0, 10)), st.booleans(), st.integers(0, 10), st.booleans(),
-                     st.sampled_from([None, "crop", "fold", "ellipsis", "ignore"]), st.sampled_from([None, False, True]))
+                     st.sampled_from([None, "crop", "fold", "ellipsis"] + (["ignore"] if allow_ignore else [])), st.sampled_from([None, False, True]))
 
 
 def other_leaves(which=None):
